@@ -170,34 +170,34 @@ FieldStage(cls, n, l) ==
     [] n = "padding" -> "unpad"
     [] OTHER -> "keyfields"
 
-InPath(cls, kt, fmt, s) == \E k \in 1..Len(Path(cls, kt, fmt)) : Path(cls, kt, fmt)[k] = s
+InPath(cls, kt, fmt, s) == LET p == Path(cls, kt, fmt) IN \E k \in 1..Len(p) : p[k] = s
 
 Case(s, i, c, pw) == [stage |-> s, idx |-> i, class |-> c, pw |-> pw]
 
-\* the malformations of field i of the (kt, fmt) grammar that the model contains, with the passphrase relation
-FieldCases(cls, kt, fmt, i) ==
-  LET f == Grammar(kt, fmt)[i]
-      s == FieldStage(cls, f.n, f.l) IN
-  IF ~InPath(cls, kt, fmt, s) THEN {}
-  ELSE {Case(s, i, c, PwFit(fmt)) : c \in Classes(f.t) \cup Rand}
-       \cup (IF Enc(fmt) /\ f.l \in {"text", "outer"}
-             THEN {Case(s, i, c, pw) : c \in {"trunc_inside", "flip", "rand_flip"} \cap (Classes(f.t) \cup Rand),
-                                       pw \in {"none", "wrong"}}
-             ELSE {})
+\* the malformations of field f (index i) of the (kt, fmt) grammar, met in stage s, with the passphrase relation
+FieldCases(fmt, f, i, s) ==
+  {Case(s, i, c, PwFit(fmt)) : c \in Classes(f.t) \cup Rand}
+  \cup (IF Enc(fmt) /\ f.l \in {"text", "outer"}
+        THEN {Case(s, i, c, pw) : c \in {"trunc_inside", "flip", "rand_flip"} \cap (Classes(f.t) \cup Rand),
+                                  pw \in {"none", "wrong"}}
+        ELSE {})
 
 FileCases(fmt) ==
-  {Case("read", 0, c, PwFit(fmt)) : c \in FileCl}
+  {Case("read", 0, c, PwFit(fmt)) : c \in FileCl \cup Rand}    \* Rand at index 0: an edit in a region this loader never reads
   \cup {Case(IF Enc(fmt) THEN "passphrase" ELSE "read", 0, "intact", pw) : pw \in PwAll(fmt)}
 
-CasesDef(cls, kt, fmt) ==
-  UNION {FieldCases(cls, kt, fmt, i) : i \in 1..Len(Grammar(kt, fmt))}
-  \cup {k \in FileCases(fmt) : InPath(cls, kt, fmt, k.stage)}
-CasesOf == [t \in Triples |-> CasesDef(t[1], t[2], t[3])]
-\* the same set as a predicate (cheap to evaluate on one case; TypeOK checks that the two agree on every case met)
+\* everything that can go wrong in stage s of loader class cls on a (kt, fmt) file
+StageCases(cls, kt, fmt, s) ==
+  LET g == Grammar(kt, fmt) IN
+  UNION {FieldCases(fmt, g[i], i, s) : i \in {j \in 1..Len(g) : FieldStage(cls, g[j].n, g[j].l) = s}}
+  \cup {k \in FileCases(fmt) : k.stage = s}
+
+\* membership in the union of StageCases over the loader's path, as a predicate (TypeOK checks that every case
+\* Inject offers satisfies it; the trace spec uses it to recognise a run's case)
 InModel(c, t, f, k) ==
   /\ <<c, t, f>> \in Triples /\ InPath(c, t, f, k.stage)
   /\ IF k.idx = 0
-     THEN \/ k.class \in FileCl /\ k.stage = "read" /\ k.pw = PwFit(f)
+     THEN \/ k.class \in FileCl \cup Rand /\ k.stage = "read" /\ k.pw = PwFit(f)
           \/ k.class = "intact" /\ k.stage = (IF Enc(f) THEN "passphrase" ELSE "read") /\ k.pw \in PwAll(f)
      ELSE /\ k.idx \in 1..Len(Grammar(t, f))
           /\ LET g == Grammar(t, f)[k.idx] IN
@@ -228,9 +228,9 @@ MustFail(kt, fmt, k) ==
        \/ f.n = "begin" /\ k.class \in {"missing", "garbled", "generic_tag", "lowercase"}
 \* classes that may turn the file into the file of ANOTHER well-formed key (new private scalar / seed / DER integer)
 MayYieldOther(kt, fmt, k) ==
-  k.idx > 0 /\ LET f == Grammar(kt, fmt)[k.idx] IN
-     \/ k.class \in Rand \cup {"splice_other_file"}
-     \/ f.t \in {"mpint", "der_int", "der_octets", "bytes64", "base64", "der_oid", "name"}
+  \/ k.class \in Rand \cup {"splice_other_file", "doubled", "leading_garbage"}
+  \/ k.idx > 0 /\ LET f == Grammar(kt, fmt)[k.idx] IN
+        f.t \in {"mpint", "der_int", "der_octets", "bytes64", "base64", "der_oid", "name"}
         /\ k.class \in {"flip", "swapped", "swapped_seed", "plus_one", "zero", "one", "negative", "other_curve", "other_valid",
                         "line_deleted", "lines_swapped", "line_duplicated", "wrong_length", "empty", "len_beyond_end",
                         "len_max", "trunc_inside", "cut_mid_quantum"}
@@ -242,47 +242,50 @@ HalvesCase(kt, fmt, k) ==
                                     "privkey", "pubkey", "dmp1", "dmq1"}
 
 (* --- how a malformation comes out of the pinned tree's decoders (used when ~Guarded and as the prediction the trace
-   spec compares observations with).  "-" = no foreign class expected: the loader copes or raises SSHException *)
-RawClass(cls, kt, fmt, k) ==
+   spec compares observations with) *)
+\* the precise predictions: this case surfaces as exactly this foreign class ("-" = no precise prediction)
+SharpClass(cls, kt, fmt, k) ==
   IF k.idx = 0 THEN
-     (IF k.class = "non_utf8_byte" THEN "UnicodeDecodeError"                 \* open(filename, "r").readlines()
-      ELSE IF k.class = "splice_other_file" THEN "ValueError|UnicodeDecodeError|AssertionError|Error"
-      ELSE IF k.class = "intact" /\ k.pw = "wrong" /\ cls = "Ed25519Key" THEN "UnicodeDecodeError|AssertionError|ValueError"
-      ELSE IF k.class = "intact" /\ k.pw = "wrong" /\ fmt = "openssh_enc" THEN "-"
+     (IF k.class = "non_utf8_byte" THEN "UnicodeDecodeError"                  \* open(filename, "r").readlines()
+      ELSE IF k.class = "intact" /\ k.pw = "empty" /\ fmt = "openssh_enc" /\ cls # "Ed25519Key" THEN "ValueError"  \* bcrypt.kdf(b"")
       ELSE "-")
   ELSE LET f == Grammar(kt, fmt)[k.idx] IN
-    CASE k.class \in Rand -> "any"                                            \* whatever the region's other classes give
-      [] f.t = "dekinfo" /\ k.class \in {"salt_non_hex", "salt_odd"}          -> "Error"       \* binascii.unhexlify
-      [] f.t = "dekinfo" /\ k.class \in {"salt_short", "salt_long", "salt_empty", "other_cipher"}
-                                                                              -> "ValueError"  \* IV size / block size
-      [] f.t = "base64ct" /\ k.class \in Ct \cup {"line_deleted", "cut_mid_quantum", "line_duplicated", "bad_padding",
-                                                  "invalid_char", "empty", "not_base64", "non_ascii_char"}
-                                                                              -> "ValueError"  \* decryptor.finalize()
-      [] f.t = "base64" /\ k.class = "non_ascii_char"                         -> "UnicodeDecodeError"
-      [] cls = "Ed25519Key" /\ f.l \in {"outer", "private"}                   -> "ed25519"     \* see EdRaw below
-      [] f.t = "cipherblob" /\ k.class \in Ct \cup {"len_short", "len_beyond_end", "len_max"} -> "ValueError"
-      [] f.t = "kdfopts" /\ k.class \in {"salt_empty", "rounds_zero", "empty", "rounds_missing", "trunc_inside", "flip",
-                                         "len_beyond_end", "len_max", "salt_short"} /\ fmt = "openssh_enc"
-                                                                              -> "ValueError"  \* bcrypt.kdf
-      [] f.n = "ciphername" /\ k.class = "bad_utf8" /\ fmt = "openssh_enc"    -> "UnicodeDecodeError"
-      [] cls = "RSAKey" /\ f.l = "private" /\ f.t = "mpint"                   -> "ValueError|ZeroDivisionError|TypeError"
-      [] cls = "RSAKey" /\ f.l = "private" /\ f.n \in {"keytype", "comment", "padding", "checkint1", "checkint2"}
-                                                                              -> "ValueError|ZeroDivisionError"
+    CASE k.pw # PwFit(fmt) -> "-"
+      [] f.t = "dekinfo" /\ k.class \in {"salt_non_hex", "salt_odd"}                  -> "Error"          \* binascii.unhexlify
+      [] f.t = "dekinfo" /\ k.class \in {"salt_short", "salt_long", "salt_empty"}     -> "ValueError"     \* IV size
+      [] f.t = "base64ct" /\ k.class = "ct_not_block_multiple"                        -> "ValueError"     \* decryptor.finalize()
+      [] f.t = "kdfopts" /\ k.class \in {"salt_empty", "rounds_zero"} /\ fmt = "openssh_enc" /\ cls = Natural(kt)
+                                                                                     -> "ValueError"     \* bcrypt.kdf
+      [] f.n \in {"ciphername", "kdfname"} /\ k.class = "bad_utf8" /\ cls = "Ed25519Key" -> "UnicodeDecodeError"  \* get_text
+      [] f.n = "ciphername" /\ k.class = "bad_utf8" /\ fmt = "openssh_enc" /\ cls # "Ed25519Key"
+                                                                                     -> "UnicodeDecodeError"  \* cipher.decode
+      [] cls = "Ed25519Key" /\ kt = "ed25519" /\ f.n \in {"pub", "pubblob"} /\ k.class = "swapped" -> "AssertionError"
+      [] cls = "Ed25519Key" /\ kt = "ed25519" /\ f.n = "privpub" /\ k.class \in {"swapped", "swapped_seed", "swapped_pub"}
+                                                                                     -> "AssertionError"
+      [] cls = "RSAKey" /\ kt = "rsa" /\ f.l = "private" /\ f.n \in {"p", "q"} /\ k.class = "one" -> "ZeroDivisionError"
+      [] cls = "RSAKey" /\ kt = "rsa" /\ f.l = "private" /\ f.t = "mpint" /\ k.class \in {"swapped", "plus_one"} /\ f.n # "e"
+                                                                                     -> "ValueError"     \* RSAPrivateNumbers
       [] OTHER -> "-"
-\* Ed25519Key._parse_signing_key_data: Message.get_text on names, nacl on key bytes, bcrypt / cipher set-up, the
-\* assert that compares the copies of the public key, data[-1] of an empty private section
-EdRaw == {"UnicodeDecodeError", "AssertionError", "ValueError", "IndexError", "TypeError", "KeyError", "CryptoError",
-          "UnsupportedAlgorithm", "Error"}
+\* the coarse prediction: foreign classes that the decoders below this field's parse stage are able to raise
+EdRaw  == {"UnicodeDecodeError", "AssertionError", "ValueError", "IndexError", "TypeError", "KeyError"}
+RsaRaw == {"ValueError", "ZeroDivisionError", "TypeError", "OverflowError", "IndexError", "UnicodeDecodeError"}
+EcRaw  == {"ValueError", "IndexError", "UnicodeDecodeError"}
+BinRaw(cls) == IF cls = "Ed25519Key" THEN EdRaw ELSE IF cls = "RSAKey" THEN RsaRaw ELSE EcRaw
 RawSet(cls, kt, fmt, k) ==
-  LET r == RawClass(cls, kt, fmt, k) IN
-  IF r = "-" THEN {}
-  ELSE IF r = "ed25519" THEN EdRaw
-  ELSE IF r = "any" THEN EdRaw \cup {"ZeroDivisionError"}
-  ELSE IF r = "ValueError|UnicodeDecodeError|AssertionError|Error" THEN {"ValueError", "UnicodeDecodeError", "AssertionError", "Error"}
-  ELSE IF r = "UnicodeDecodeError|AssertionError|ValueError" THEN {"UnicodeDecodeError", "AssertionError", "ValueError"}
-  ELSE IF r = "ValueError|ZeroDivisionError|TypeError" THEN {"ValueError", "ZeroDivisionError", "TypeError"}
-  ELSE IF r = "ValueError|ZeroDivisionError" THEN {"ValueError", "ZeroDivisionError"}
-  ELSE {r}
+  (IF SharpClass(cls, kt, fmt, k) = "-" THEN {} ELSE {SharpClass(cls, kt, fmt, k)}) \cup
+  (IF k.idx = 0 THEN
+     (IF k.class \in Rand \cup {"splice_other_file", "doubled", "nul_byte", "leading_garbage"}
+         \/ (k.class = "intact" /\ k.pw \in {"wrong", "empty"})
+      THEN BinRaw(cls) \cup {"Error", "AssertionError", "AttributeError"} ELSE {})
+   ELSE LET f == Grammar(kt, fmt)[k.idx] IN
+     CASE k.class \in Rand -> BinRaw(cls) \cup {"Error", "AssertionError", "AttributeError"}
+       [] f.l = "der" -> {}                                        \* load_der_private_key is wrapped by both _decode_key
+       [] f.t = "tagline" -> IF k.class \in {"other_tag", "missing", "garbled", "duplicated"}
+                             THEN BinRaw(cls) \cup {"AssertionError", "AttributeError"} ELSE {}
+       [] f.t \in {"header", "dekinfo"} -> {"Error", "ValueError"}
+       [] f.t = "base64ct" -> {"ValueError"}
+       [] f.t = "base64" -> IF IsPem(fmt) THEN {} ELSE BinRaw(cls)
+       [] OTHER -> BinRaw(cls))                                    \* container and private section of the new format
 
 AllowedClasses == {"SSHException", "PasswordRequiredException"}
 Loads == {"loaded_same", "loaded_other", "loaded_mismatch"}
@@ -318,8 +321,7 @@ WellFormed ==
 \* the stage meets a malformed field (or the passphrase does not fit): the load ends there, one way or another
 Inject ==
   /\ inj = <<>> /\ surfaced = {}
-  /\ \E k \in CasesOf[<<cls, kt, fmt>>] :
-       /\ k.stage = Stage
+  /\ \E k \in StageCases(cls, kt, fmt, Stage) :
        /\ inj' = k
        /\ surfaced' = Outcomes(cls, kt, fmt, k)
   /\ UNCHANGED <<cls, kt, fmt, pos>>
